@@ -41,12 +41,20 @@ pub fn requests() -> Vec<Req> {
         Req::MemoryAccess,
         Req::SetLimit(2),
         Req::SetLimit(usize::MAX),
+        // numeric edges: n * 4 just fits / offset + n * 4 overflows / n * 4 wraps to 0; limits beyond 16 and 32 bits
+        Req::Words(usize::MAX / 4),
+        Req::Words(usize::MAX / 4 - 1),
+        Req::Words(1 << 62),
+        Req::SetLimit(1 << 16),
+        Req::SetLimit(1 << 32),
     ]
 }
 
 fn req_str(r: &Req) -> String {
     match r {
         Req::Words(n) if *n == usize::MAX => "words(MAX)".into(),
+        Req::Words(n) if *n == usize::MAX / 4 => "words(MAX/4)".into(),
+        Req::Words(n) if *n == usize::MAX / 4 - 1 => "words(MAX/4-1)".into(),
         Req::Words(n) => format!("words({})", n),
         Req::SetLimit(n) if *n == usize::MAX => "set_limit(MAX)".into(),
         Req::SetLimit(n) => format!("set_limit({})", n),
@@ -477,9 +485,8 @@ pub fn run(tier: Tier) -> Run {
     let mut run = Run::new("C11", tier, "model_checking");
     let reqs = requests();
     let mut bufs = buffers(&[0x00, 0x02, 0xFF], tier.pick(6, 8));
-    if tier == Tier::Thorough {
-        bufs.extend(buffers(&[0x00, 0xC3, 0xA9], 6).into_iter().filter(|b| b.iter().any(|&x| x >= 0x80)));
-    }
+    // strings with complete and incomplete multi-byte sequences
+    bufs.extend(buffers(&[0x00, 0xC3, 0xA9], tier.pick(5, 6)).into_iter().filter(|b| b.iter().any(|&x| x >= 0x80)));
     bufs.push(b"ok\0".to_vec());
     bufs.push(b"ok\0\0".to_vec());
     bufs.push(b"abcd\0\0\0\0".to_vec());
